@@ -6949,3 +6949,72 @@ def c04_typed_decoders_are_total(env):
 
 REGISTRY.setdefault("C04", []).append(c04_typed_decoders_are_total)
 REGISTRY.setdefault("C15", []).append(lambda env: [_retagged(x, "C15", "c15_typed_item_decoders_call_nothing_that_can_panic") for x in c04_typed_decoders_are_total(env)])
+
+
+# ---- C03: the decoder's "which kind of enum am I inside" flag is restored by deserialize_enum -------------------
+
+
+def c03_enum_type_is_restored(env):
+    o = Obligation("c03_deserialize_enum_restores_the_enum_kind", "C03")
+    o.desc = "serde_amqp Deserializer::deserialize_enum (entered for Value, Descriptor, Array<T> and every descriptor-selected protocol enum): the decoder's enum_type flag -- which tells the nested variant access how to read the discriminant -- has, on every path that returns the visitor's Ok, the value it had on entry, for every kind of enum (name) and every wire code; otherwise a later enum in the same frame (e.g. Attach.target after Source.outcomes, a DeliveryState in Attach.unsettled) is read under the flag of an earlier one and a valid encoding no longer decodes"
+    senv = env.crate("serde_amqp")
+    fn = mir.find_fn(senv.fns, r"^de::<impl at [^>]*>::deserialize_enum$")
+    o.functions = [fn.name]
+    o.bounds = ["one call; every enum name, every wire code, every result of the visitor; the flag arbitrary on entry"]
+    o.assumes = ["Visitor::visit_enum may change any decoder state it can reach (havocked)"]
+    ET = senv.enums.get("EnumType")
+    if not ET:
+        raise mir.Unsupported("EnumType layout not found")
+    # two types are called Deserializer (bytes and value tree): take the field from this function's own MIR
+    txt = "\n".join(t for b in fn.blocks.values() for t in (b[0] + [b[1]]))
+    fm = re.search(r"\(\(\*_1\)\.(\d+): (util::)?EnumType\)", txt)
+    if not fm:
+        raise mir.Unsupported("Deserializer.enum_type not found in deserialize_enum")
+    f_et = int(fm.group(1))
+    ex = mir.Executor(senv.fns, senv.structs, senv.enums, max_visits=3, consts=senv.consts)
+    ex.max_paths = 6000
+    D = mir.Agg("deserializer")
+    pre = z3.BitVec("pre.enum_type", 64)
+    et = mir.Agg("EnumType")
+    et["#d"] = pre
+    D[f_et] = et
+
+    def m_clone(ex_, st, callee, args, argvals, dty):
+        x = argvals[0]
+        k_ = 0
+        while isinstance(x, mir.Ref) and k_ < 4:
+            cont, key = ex_.resolve(st, list(x.path))
+            x = cont.get(key)
+            k_ += 1
+        if isinstance(x, mir.Agg) and "#d" in x:
+            c = mir.Agg("EnumType")
+            c["#d"] = x["#d"]
+            return c
+        return None
+
+    ex.models = [(r"^<(de::)?EnumType as Clone>::clone$", m_clone)]
+    paths = ex.run(fn, {"_1": mir.Ref(("@de",), True), "@de": D, "_2": mir.Agg("name"), "_3": mir.Agg("variants"), "_4": mir.Agg("visitor")})
+    hyp = ex.assumptions + [z3.Or(*[pre == v for v in ET.values()])]
+
+    def replay(m):
+        return "enum_after_array", (lambda js: js.get("panic") or not js["roundtrips"])
+
+    n = 0
+    imps = []
+    for i, p in enumerate(paths):
+        if p.end != "return" or not isinstance(p.ret, mir.Agg) or "#d" not in p.ret:
+            continue
+        H = hyp + p.cond + [p.ret["#d"] == 0]
+        cur = p.locals["@de"].get(f_et)
+        d = cur.get("#d") if isinstance(cur, mir.Agg) else None
+        n += 1
+        imps.append((i, H, (d == pre) if d is not None else z3.BoolVal(False)))
+    # one query per path is affordable here (a few dozen paths)
+    for i, H, g in imps:
+        o.prove(f"path{i}:ok-means-the-flag-is-what-it-was", H, g, replay=replay)
+    o.cover("returning paths", [z3.BoolVal(n > 3)])
+    return [o]
+
+
+REGISTRY.setdefault("C03", []).append(c03_enum_type_is_restored)
+REGISTRY.setdefault("C05", []).append(lambda env: [_retagged(x, "C05", "c05_deserialize_enum_restores_the_enum_kind") for x in c03_enum_type_is_restored(env)])
